@@ -72,6 +72,11 @@ func genCase(t *rapid.T) Case {
 		for i := 0; i < n; i++ {
 			c.Params[fmt.Sprintf("p%d_%s", i, rapid.StringMatching(`[a-z]{0,5}`).Draw(t, "pkey"))] = gen.CString(100).Draw(t, "pval")
 		}
+		// an application may configure a parameter under a name the server also states itself
+		if rapid.IntRange(0, 3).Draw(t, "builtin-name?") == 0 {
+			k := rapid.SampledFrom([]string{"client_encoding", "server_encoding", "session_authorization", "server_version", "is_superuser", "application_name", "DateStyle"}).Draw(t, "builtin-key")
+			c.Params[k] = rapid.SampledFrom([]string{"LATIN1", "UTF8", "on", "configured-value", ""}).Draw(t, "builtin-val")
+		}
 	}
 	if c.HasParams && rapid.IntRange(0, 3).Draw(t, "earlier-call?") == 0 {
 		c.HasEarlier = true
